@@ -20,8 +20,5 @@ def check(tier, seed):
                      "adjoint / conjugate / transpose (all 39 words, both hermitian and biorthogonal construction, real or complex vectors) denotes the "
                      "correspondingly transformed dense matrix; memoisation is consistent; the base class is initialised with shape (n,n) and the promoted "
                      "dtype; P P = P under L^H R = 1.")
-    d.add_callsite_witness("callsite:projector/matvec-of-a-batch-of-row-vectors", "bd_battery.py", "batch_finding",
-                           "assumption A-SC names the dispatch of scipy's LinearOperator to the hooks _matvec / _matmat / _rmatvec / _rmatmat with operands of shape (N,) resp. (N, K); "
-                           "scipy >= 1.18 also hands batches of row vectors (..., N) to _matvec / _rmatvec; the witness is replayed on every run")
-    d.run_battery("bd_battery.py", ["projector"], "n = 6, 2 vectors, real/complex and biorthogonal combinations, 9 views x 10 operator operations incl. scipy composites")
+    d.run_battery("bd_battery.py", ["projector", "batch_finding"], "n = 6, 2 vectors, real/complex and biorthogonal combinations, 9 views x 10 operator operations incl. scipy composites")
     return d.finish(level="proof", trusted_base=["contracts/linalg_projector.py", "pyvc/matnf.py"])
